@@ -123,3 +123,31 @@ def run(ctx):
     # a wallet built from an extended key takes its network (wallet flag AND node flag) from the version prefix
     from .C07 import check_dispatch
     check_dispatch(ctx, 'C16.IMPORT')
+    # the command line: a wallet made from an extended key takes its network from the key, the other commands from --testnet
+    from .C20 import main_paths, attr, CTORS
+    fmain = p.get_function('__main__.main')
+    with ctx.obligation('C16.CLI', '__main__.main network wiring', None, fmain.where) as ob:
+        n = 0
+        for rec in main_paths(p):
+            if rec['kind'] != 'sink':
+                continue
+            data = rec['data']
+            gen = data[2] if T.is_op(data, 'PARANOIA') else data
+            if not T.is_op(gen, 'GENERATE') or T.tag(gen[2]) != 'sym':
+                continue
+            wallet = gen[2]
+            ctor = T.sym_meta(wallet, 'ctor')
+            kwargs = dict(T.sym_meta(wallet, 'kwargs') or ())
+            n += 1
+            if ctor == 'from_extended_key':
+                for k_, v_ in kwargs.items():
+                    if k_ in ('testnet', 'network', 'net'):
+                        ob.require(v_ == T.NONE, 'the from-master-xprv command hands a network (%s) to from_extended_key: the wallet '
+                                   'would not take its network from the key\'s version prefix (without --testnet a tprv/uprv/vprv key '
+                                   'gives a mainnet-tagged wallet)' % T.show(v_, maxdepth=2), fmain.where)
+                ob.evaluations += 1
+            elif 'testnet' in kwargs:
+                same_term(ob, kwargs['testnet'], attr('testnet'), 'command %r builds its wallet on the network of --testnet' % rec['command'],
+                          fmain.where)
+        if n < 5:
+            ob.undecided('fewer wallet-producing paths of main() than sub-commands were recognised (%d)' % n, fmain.where)
